@@ -78,7 +78,8 @@ def _get_or_create_user(ctx, user_id):
     return user
 
 
-def _create_consumer(ctx, consumer_uuid, project, user, consumer_type_id):
+def _create_consumer(ctx, consumer_uuid, project, user, consumer_type_id,
+                     must_not_exist=False):
     created_new_consumer = False
     try:
         consumer = consumer_obj.Consumer(
@@ -87,6 +88,13 @@ def _create_consumer(ctx, consumer_uuid, project, user, consumer_type_id):
         consumer.create()
         created_new_consumer = True
     except exception.ConsumerExists:
+        if must_not_exist:
+            # The caller stated (consumer_generation: null) that the consumer
+            # does not exist yet, and a racing request has just created it.
+            raise webob.exc.HTTPConflict(
+                'consumer generation conflict - expected null but the '
+                'consumer %s was created concurrently' % consumer_uuid,
+                comment=errors.CONCURRENT_UPDATE)
         # Another thread created this consumer already, verify whether
         # the consumer type matches
         consumer = consumer_obj.Consumer.get_by_uuid(ctx, consumer_uuid)
@@ -167,7 +175,8 @@ def ensure_consumer(ctx, consumer_uuid, project_id, user_id,
         # No such consumer. This is common for new allocations. Create the
         # consumer record
         consumer, created_new_consumer = _create_consumer(
-            ctx, consumer_uuid, proj, user, cons_type_id)
+            ctx, consumer_uuid, proj, user, cons_type_id,
+            must_not_exist=requires_consumer_generation)
 
     # Also return the project, user, and consumer type from the request to use
     # for rollbacks.
